@@ -25,86 +25,109 @@ def sameAtom (ve : VE) (old : Tree) : Bool :=
   | .atom (.int i), .leaf (.int j) => i == j && decide (-5 ≤ i) && decide (i ≤ 256)
   | _, _ => false
 
+/-- `old_value is value` for an offered value and the current occupant of the slot. -/
+def sameValue (ve : VE) (old : Option Tree) : Bool :=
+  match ve, old.bind Tree.id? with
+  | .ref id, some oid => id == oid
+  | _, _ => (old.map (sameAtom ve)).getD false
+
+/-- fixes/C01-F03: a negative index is normalised before it is used as a path key. -/
+def listNormIndex (cfg : Cfg) (key : Int) (len : Int) (ins : Bool) : Int :=
+  if cfg.reindexOnMutate && key < 0 then
+    (if ins then (if key + len < 0 then 0 else key + len) else if key ≥ -len then key + len else key)
+  else key
+
+def childNodes (its : Items) : List Tree := (its.map (·.2)).filter Tree.isNode
+
+def addRoots (f : Forest) (ts : List Tree) : Forest := ts.foldl Forest.addRoot f
+
+/-- replace the item at `pos` (list.py:425-428): formalize, store, detach the old value (parent
+only). On the patched tree the index is a position here; unpatched, a negative index stays in
+the child's path (F03). -/
+def listReplace (cfg : Cfg) (f : Forest) (m : Meta) (index : Int) (pos : Nat) (old : Tree) (ve : VE) : Forest :=
+  let r := evalVE cfg f none (some m.id) false m.part (m.path ++ [Key.i index]) ve
+  (r.1.mapAt m.id (storeKey (Key.i pos) (if cfg.reindexOnMutate then Key.i pos else Key.i index) r.2)).addRoot
+    (old.setParent none)
+
+/-- insert (list.py:422-424; patched: the shifted siblings are re-indexed). -/
+def ownElement (its : Items) : VE → Option Tree
+  | .ref id => (its.find? (fun kv => kv.2.id? == some id)).map (·.2)
+  | _ => none
+
+def listInsert (cfg : Cfg) (f : Forest) (m : Meta) (its : Items) (index : Int) (len : Nat) (ve : VE) : Forest :=
+  -- fixes/C01-F79: a value that already is an element of this list is copied first
+  let r := match (if cfg.insertCopiesOwn then ownElement its ve else none) with
+    | some own =>
+      let c := own.clone cfg false f.nextId (some m.id) (m.path ++ [Key.i index])
+      ({ f with nextId := c.2 }, c.1)
+    | none => evalVE cfg f none (some m.id) false m.part (m.path ++ [Key.i index]) ve
+  r.1.mapAt m.id (fun m' xs =>
+    let ys := insertAt (pyInsertPos index len) r.2 xs
+    if cfg.reindexOnMutate then reindex m' ys else ys)
+
+def listAppend (cfg : Cfg) (f : Forest) (m : Meta) (index : Int) (ve : VE) : Forest :=
+  let r := evalVE cfg f none (some m.id) false m.part (m.path ++ [Key.i index]) ve
+  r.1.mapAt m.id (fun m' xs => xs ++ [(Key.i index, r.2.setPath (m'.path ++ [Key.i index]))])
+
 /-- `List._set_item_without_permission_check` (list.py:397-434).
 `ins`: the value is wrapped in `Insertion`. Returns the new forest and whether a FieldUpdate was
 produced. -/
 def rawSetList (cfg : Cfg) (f : Forest) (m : Meta) (its : Items) (key : Int) (ins : Bool) (ve : VE) :
     Except Err (Forest × Bool) :=
   let len : Int := its.length
-  -- fixes/C01-F03: a negative index is normalised before it is used as a path key
-  let index : Int :=
-    if cfg.reindexOnMutate && key < 0 then
-      (if ins then (if key + len < 0 then 0 else key + len) else if key ≥ -len then key + len else key)
-    else key
-  if index ≥ len && ve.isMissing && !ins then .ok (f, false) else
-  let index : Int := if index ≥ len then len else index
+  let index0 := listNormIndex cfg key len ins
+  if index0 ≥ len && ve.isMissing && !ins then .ok (f, false) else
+  let index : Int := if index0 ≥ len then len else index0
   if index < len && !ins then
     if index < -len then .error .index else
     let pos : Nat := (if index < 0 then index + len else index).toNat
     match getKey its (Key.i pos) with
     | none => .error .index
     | some old =>
-      let same := match ve, old.id? with
-        | .ref id, some oid => id == oid
-        | _, _ => sameAtom ve old
-      if same then .ok (f, false) else
-      let r := evalVE cfg f none (some m.id) false m.part (m.path ++ [Key.i index]) ve
-      let f2 := r.1.mapAt m.id (fun _ xs => setKey (Key.i pos) r.2 xs)
-      -- detach the old value: parent only (list.py:426-428)
-      .ok (f2.addRoot (old.setParent none), true)
-  else if index < len then
-    let r := evalVE cfg f none (some m.id) false m.part (m.path ++ [Key.i index]) ve
-    let pos := pyInsertPos index its.length
-    .ok (r.1.mapAt m.id (fun m' xs =>
-          let ys := insertAt pos r.2 xs
-          if cfg.reindexOnMutate then reindex m' ys else ys), true)
-  else
-    let r := evalVE cfg f none (some m.id) false m.part (m.path ++ [Key.i index]) ve
-    .ok (r.1.mapAt m.id (fun _ xs => renumber (xs ++ [(Key.i 0, r.2)])), true)
+      if sameValue ve (some old) then .ok (f, false) else .ok (listReplace cfg f m index pos old ve, true)
+  else if index < len then .ok (listInsert cfg f m its index its.length ve, true)
+  else .ok (listAppend cfg f m index ve, true)
 
-def childNodes (its : Items) : List Tree := (its.map (·.2)).filter Tree.isNode
+def dictBadKey (m : Meta) (key : Key) : Bool :=
+  match m.kind with
+  | .obj cls => !(clsFields cls).contains key
+  | _ => false
 
-def addRoots (f : Forest) (ts : List Tree) : Forest := ts.foldl Forest.addRoot f
+/-- the old value as `Dict._detach` leaves it: parent None, path root (dict.py:557-560). -/
+def dictDetached (its : Items) (key : Key) : Option Tree :=
+  match getKey its key with
+  | some (.node om oits) => some (((Tree.node om oits).setParent none).setPath [])
+  | _ => none
+
+/-- `del` through MISSING_VALUE (dict.py:562-567). -/
+def dictErase (f : Forest) (m : Meta) (its : Items) (key : Key) : Forest :=
+  addRoots (f.mapAt m.id (fun _ xs => eraseKey key xs)) (dictDetached its key).toList
+
+/-- formalize and store (dict.py:570-573). The old value has been detached before; it still
+occupies its slot until the new value is stored, and it becomes a root of its own unless the new
+value took it in. -/
+def dictStore (cfg : Cfg) (f : Forest) (m : Meta) (its : Items) (key : Key) (ve : VE) : Forest :=
+  let d := dictDetached its key
+  let r := evalVE cfg f (d.bind Tree.id?) (some m.id) (isObjKind m.kind) m.part (m.path ++ [key]) ve
+  let f3 := r.1.mapAt m.id (storeKey key key r.2)
+  let consumed := match d.bind Tree.id? with
+    | some oid => r.2.ids.contains oid
+    | none => false
+  if consumed then f3 else addRoots f3 d.toList
 
 /-- `Dict._set_item_without_permission_check` (dict.py:533-583), also the attribute container of
 an object (object.py:896-900). -/
 def rawSetDict (cfg : Cfg) (f : Forest) (m : Meta) (its : Items) (key : Key) (ve : VE) :
     Except Err (Forest × Bool) :=
-  let old := getKey its key
-  let same := match ve, old.bind Tree.id? with
-    | .ref id, some oid => id == oid
-    | _, _ => (old.map (sameAtom ve)).getD false
-  if same then .ok (f, false) else
+  if sameValue ve (getKey its key) then .ok (f, false) else
   -- MISSING_VALUE is a singleton: deleting an absent key is `old_value is value`
   if ve.isMissing && !hasKey its key then .ok (f, false) else
-  let badKey := match m.kind with
-    | .obj cls => !(clsFields cls).contains key
-    | _ => false
-  if badKey then .error .key else
-  -- detach the old value first: parent None, path root (dict.py:557-560); it still occupies
-  -- its slot until the new value is stored
-  let detached : Option Tree := match old with
-    | some (.node om oits) => some (((Tree.node om oits).setParent none).setPath [])
-    | _ => none
-  let f1 := match detached with
-    | some d => f.mapAt m.id (fun _ xs => setKey key d xs)
-    | none => f
-  let isObj := isObjKind m.kind
-  if ve.isMissing && !isObj then
-    -- (the slot still holds the detached old value at this point; erasing the key from the
-    -- original payload is the same thing)
-    if hasKey its key then
-      .ok (addRoots (f.mapAt m.id (fun _ xs => eraseKey key xs)) detached.toList, true)
-    else .ok (f, false)
+  if dictBadKey m key then .error .key else
+  if ve.isMissing && !isObjKind m.kind then
+    (if hasKey its key then .ok (dictErase f m its key, true) else .ok (f, false))
   else
-    let ve' := if ve.isMissing then VE.atom .none else ve       -- field default
-    let r := evalVE cfg f1 (detached.bind Tree.id?) (some m.id) isObj m.part (m.path ++ [key]) ve'
-    let f3 := r.1.mapAt m.id (fun _ xs => setKey key r.2 xs)
-    -- the old value becomes a root of its own unless the new value took it in
-    let consumed := match detached.bind Tree.id? with
-      | some oid => r.2.ids.contains oid
-      | none => false
-    .ok (if consumed then f3 else addRoots f3 detached.toList, true)
+    -- an object field is reset to its default
+    .ok (dictStore cfg f m its key (if ve.isMissing then VE.atom .none else ve), true)
 
 /-- dispatch on the kind of the container `t`. -/
 def rawSet (cfg : Cfg) (f : Forest) (t : Nat) (key : Key) (ins : Bool) (ve : VE) : Except Err (Forest × Bool) :=
@@ -173,6 +196,37 @@ def rawDelList (cfg : Cfg) (f : Forest) (m : Meta) (its : Items) (pos : Nat) : F
   (f.mapAt m.id (fun m' xs => let ys := removeAt pos xs; if cfg.reindexOnMutate then reindex m' ys else ys)).addRoot
     (if cfg.detachOnRemove then detachFrom .list old else old)
 
+/-- `slice(a, b, c).indices(len)` (CPython `PySlice_AdjustIndices`); `none`: step 0 (ValueError). -/
+def sliceIndices (a b c : Option Int) (len : Nat) : Option (Int × Int × Int) :=
+  let step := c.getD 1
+  if step = 0 then none else
+  let n : Int := len
+  let adj (x : Option Int) (dflt : Int) : Int :=
+    match x with
+    | none => dflt
+    | some v =>
+      let v := if v < 0 then v + n else v
+      if v < 0 then (if step < 0 then -1 else 0)
+      else if v ≥ n then (if step < 0 then n - 1 else n) else v
+  some (adj a (if step < 0 then n - 1 else 0), adj b (if step < 0 then -1 else n), step)
+
+/-- `len(range(start, stop, step))`. -/
+def rangeLen (start stop step : Int) : Nat :=
+  if step > 0 then (if start < stop then ((stop - start - 1) / step + 1).toNat else 0)
+  else (if stop < start then ((start - stop - 1) / (-step) + 1).toNat else 0)
+
+/-- `del l[a:b:c]` after the guards (list.py `__delitem__`): the addressed positions are removed
+(largest first, so nothing shifts meanwhile), every removed value is detached, then the list is
+re-indexed once. -/
+def rawDelMany (cfg : Cfg) (f : Forest) (m : Meta) (its : Items) (positions : List Nat) : Forest :=
+  let keys := positions.map (fun (n : Nat) => Key.i (Int.ofNat n))
+  let removed := (its.filter (fun kv => keys.contains kv.1)).map (·.2)
+  addRoots
+    (f.mapAt m.id (fun m' xs =>
+      let ys := renumber (xs.filter (fun kv => !keys.contains kv.1))
+      if cfg.reindexOnMutate then reindex m' ys else ys))
+    ((removed.filter Tree.isNode).map (fun c => if cfg.detachOnRemove then detachFrom .list c else c))
+
 /-! ### Operations -/
 
 inductive Op where
@@ -189,7 +243,9 @@ inductive Op where
   | lSort (t : Nat) (ranks : List Int) (rev : Bool)
   | lReverse (t : Nat)
   | lIMul (t : Nat) (n : Int)
-  | lSetSlice (t : Nat) (start stop step : Int) (vs : List VE)
+  | lSetSlice (t : Nat) (a b c : Option Int) (vs : List VE)   -- `l[a:b:c] = vs`
+  | lDelSlice (t : Nat) (a b c : Option Int)                   -- `del l[a:b:c]`
+  | setSeal (t : Nat) (flag : Bool)                              -- `x.seal(flag)`
   | dPop (t : Nat) (k : Key)
   | dPopItem (t : Nat)
   | dClear (t : Nat)
@@ -355,16 +411,17 @@ def atomEq : Tree → Atom → Bool
 /-- first pass of a slice assignment: `[self._formalized_value(i, v) for i, v in enumerate(value)]`
 (list.py:543). The formalized values are live objects not yet stored anywhere; the model parks
 them as temporary roots. -/
+def sliceInPlace (f : Forest) (m : Meta) (i : Nat) : VE → Bool
+  | .ref id => (match f.metaOf? id with
+      | some cm => !f.isRoot id && cm.parent == some m.id && cm.path == m.path ++ [Key.i i]
+      | none => false)
+  | _ => false
+
 def slicePrepare (cfg : Cfg) (m : Meta) : Forest → Nat → List VE → Forest × List VE
   | f, _, [] => (f, [])
   | f, i, v :: vs =>
     -- a child that already sits at (self, i) is returned as it is by `_relocate_if_symbolic`
-    let inPlace := match v with
-      | .ref id => (match f.metaOf? id with
-          | some cm => !f.isRoot id && cm.parent == some m.id && cm.path == m.path ++ [Key.i i]
-          | none => false)
-      | _ => false
-    if inPlace then
+    if sliceInPlace f m i v then
       let rest := slicePrepare cfg m f (i + 1) vs
       (rest.1, v :: rest.2)
     else
@@ -474,24 +531,46 @@ def step (cfg : Cfg) (f : Forest) (notifyOn : Bool) : Op → Res
         let vs := (List.replicate (n.toNat - 1) one).flatten
         finish f notifyOn (extendLoop cfg t f vs false) [m.id]
     | _ => ⟨f, .skip⟩
-  | .lSetSlice t start stop stp vs =>
+  | .lSetSlice t a b c vs =>
     match f.find? t with
-    | some (.node m _) =>
+    | some (.node m its) =>
       if m.sealed then ⟨f, .err .perm⟩ else
       if !m.accW then ⟨f, .err .perm⟩ else
-      -- glue guarantees 0 ≤ start ≤ stop ≤ len, stp ≥ 1 and, for stp > 1, matching sizes
-      let p := slicePrepare cfg m f 0 vs
-      let size : Nat := ((stop - start + stp - 1) / stp).toNat
-      let repl : List (Bool × VE) :=
+      match sliceIndices a b c its.length with
+      | none => ⟨f, .err .value⟩
+      | some (start, stop, stp) =>
+        let p := slicePrepare cfg m f 0 vs
+        let size : Nat := rangeLen start stop stp
+        let n := p.2.length
+        let run (start stp : Int) (repl : List (Bool × VE)) : Res :=
+          match sliceLoop cfg t start stp p.1 0 repl false with
+          | .error e => ⟨p.1, .err e⟩
+          | .ok (f', upd) => ⟨if notifyOn && upd then notify f' [m.id] else f', .ok⟩
         if stp = 1 then
-          (if size < p.2.length then
-            (p.2.zipIdx.map (fun vi => (decide (size ≤ vi.2), vi.1)))
-           else p.2.map (fun v => (false, v)) ++ List.replicate (size - p.2.length) (false, VE.atom .missing))
-        else p.2.map (fun v => (false, v))
-      let r := sliceLoop cfg t start stp p.1 0 repl false
-      match r with
-      | .error e => ⟨p.1, .err e⟩
-      | .ok (f', upd) => ⟨if notifyOn && upd then notify f' [m.id] else f', .ok⟩
+          run start 1
+            (if size < n then (p.2.zipIdx.map (fun vi => (decide (size ≤ vi.2), vi.1)))
+             else p.2.map (fun v => (false, v)) ++ List.replicate (size - n) (false, VE.atom .missing))
+        else if size ≠ n then ⟨p.1, .err .value⟩     -- raised after the values were formalized
+        else if stp < 0 then
+          run (start + ((size : Int) - 1) * stp) (-stp) (p.2.reverse.map (fun v => (false, v)))
+        else run start stp (p.2.map (fun v => (false, v)))
+    | _ => ⟨f, .skip⟩
+  | .lDelSlice t a b c =>
+    match f.find? t with
+    | some (.node m its) =>
+      if m.sealed then ⟨f, .err .perm⟩ else
+      if !m.accW then ⟨f, .err .perm⟩ else
+      match sliceIndices a b c its.length with
+      | none => ⟨f, .err .value⟩
+      | some (start, stop, stp) =>
+        let size := rangeLen start stop stp
+        if size = 0 then ⟨f, .ok⟩ else
+        let f' := rawDelMany cfg f m its ((List.range size).map (fun (i : Nat) => (start + (Int.ofNat i) * stp).toNat))
+        ⟨if notifyOn then notify f' [m.id] else f', .ok⟩
+    | _ => ⟨f, .skip⟩
+  | .setSeal t flag =>
+    match f.find? t with
+    | some (.node _ _) => ⟨{ f with roots := f.roots.map (Tree.mapSubtree t (Tree.seal flag)) }, .ok⟩
     | _ => ⟨f, .skip⟩
   | .dPop t k =>
     match f.find? t with
